@@ -26,7 +26,8 @@ class _Failure:
 
 class SimPoolHang(BaseException):
     """The real pool would hang here: its result-handler thread died while unpickling a worker's exception, so this
-    and every later result is never delivered and the consumer waits forever."""
+    and every later result is never delivered and the consumer waits forever. Also raised by terminate() when the
+    plan injects the "worker killed while sending its result" fault and a worker is in fact still busy (see terminate)."""
 
 
 class _Undeliverable:
@@ -72,6 +73,7 @@ def make_pool(plan, stats):
     ties = list(plan.get("ties") or [0])
     cpu = int(plan.get("cpu", 4))
     stall = dict(plan.get("stall") or {})
+    kill_mid_send = bool(plan.get("kill_mid_send"))
 
     class SimPool:
         def __init__(self, processes=None, initializer=None, initargs=(), maxtasksperchild=None, context=None):
@@ -83,6 +85,9 @@ def make_pool(plan, stats):
                 raise ValueError("Number of processes must be at least 1")
             self._n = processes
             self._state = "RUN"
+            self._stats = stats
+            self._now = 0          # simulated time as the consumer of results has experienced it
+            self._open = []        # per map call: {"start": {chunk: t}, "finish": {chunk: t}, "consumed": set()}
             stats.setdefault("pools", []).append(processes)
             if initializer is not None:
                 for _ in range(processes):
@@ -105,12 +110,39 @@ def make_pool(plan, stats):
             if self._state == "RUN":
                 self._state = "CLOSE"
 
+        def _busy(self):
+            """Chunks a worker is running, or whose result is on its way through the pipe, at simulated time now."""
+            n = 0
+            for b in self._open:
+                for ci, st in b["start"].items():
+                    fin = b["finish"][ci]
+                    if st <= self._now and (fin > self._now or (fin == self._now and ci not in b["consumed"])):
+                        n += 1
+            return n
+
         def terminate(self):
+            # Real Pool.terminate() stops the result handler and SIGTERMs the workers. A worker that is inside
+            # outqueue.put(result) at that instant holds the result pipe's write lock (or blocks in a send nobody reads any
+            # more); the parent's own outqueue.put(None) in _terminate_pool / _handle_tasks then waits for ever. Whether
+            # that happens is a race in the real pool; here the plan decides it (fault kind pool.terminate_busy).
+            busy = self._busy() if self._state in ("RUN", "CLOSE") else 0
             self._state = "TERMINATE"
+            stats["terminated"] = stats.get("terminated", 0) + 1
+            if busy:
+                stats["terminate_busy"] = stats.get("terminate_busy", 0) + 1
+                if kill_mid_send:
+                    stats["terminate_busy_hang"] = stats.get("terminate_busy_hang", 0) + 1
+                    raise SimPoolHang(f"Pool.terminate() (leaving `with Pool(...)`) while {busy} worker(s) were still running "
+                                      "or sending a result: a worker killed inside outqueue.put keeps the result pipe's lock, "
+                                      "and terminate() itself never returns")
 
         def join(self):
             if self._state == "RUN":
                 raise ValueError("Pool is still running")
+            if self._state == "CLOSE":         # workers finish everything that was submitted, then exit
+                for b in self._open:
+                    self._now = max([self._now] + list(b["finish"].values()))
+                    b["consumed"].update(b["finish"])
 
         # -- the simulation
         def _simulate(self, func, tasks, chunksize, star=False):
@@ -135,6 +167,7 @@ def make_pool(plan, stats):
             nxt = 0
             now = 0
             worker_of = {}
+            sched = {"start": {}, "finish": {}, "consumed": set()}
             while heap:
                 when, _tb, kind, ci, wk = heapq.heappop(heap)
                 now = when
@@ -150,6 +183,8 @@ def make_pool(plan, stats):
                     heapq.heappush(heap, (now + dur[nxt], int(ties[(base + nxt) % len(ties)]), 1, nxt, w2))
                     start_order.append(nxt)
                     worker_of[nxt] = w2
+                    sched["start"][nxt] = self._now + now
+                    sched["finish"][nxt] = self._now + now + dur[nxt]
                     nxt += 1
                 if nxt >= len(chunks) and not any(e[2] == 1 for e in heap):
                     break
@@ -176,6 +211,7 @@ def make_pool(plan, stats):
                         break
                 results[ci] = failed if failed is not None else out
             stats["tasks"] = base + len(tasks)
+            self._open.append(sched)
             stats.setdefault("batches", []).append({
                 "workers": self._n, "tasks": len(tasks), "chunksize": chunksize,
                 "completion": completion, "workers_used": len(set(worker_of.values())),
@@ -185,7 +221,7 @@ def make_pool(plan, stats):
         def _iter(self, order, results):
             # a class-based iterator, like multiprocessing.pool.IMapIterator (NOT a generator: an exception
             # raised by a task - StopIteration included - comes out of __next__ exactly as the real pool raises it)
-            return _ResultIterator(list(order), results)
+            return _ResultIterator(list(order), results, self, self._open[-1])
 
         def imap_unordered(self, func, iterable, chunksize=1):
             chunks, completion, results = self._simulate(func, iterable, chunksize)
@@ -262,8 +298,9 @@ def make_pool(plan, stats):
 
 
 class _ResultIterator:
-    def __init__(self, order, results):
+    def __init__(self, order, results, pool=None, sched=None):
         self._order, self._results = order, results
+        self._pool, self._sched = pool, sched
         self._pos = 0
         self._buf = []
         self._dead = False
@@ -279,8 +316,14 @@ class _ResultIterator:
             if isinstance(r, _Undeliverable) or self._dead:
                 self._dead = True
                 raise SimPoolHang(r.why if isinstance(r, _Undeliverable) else "result handler already dead")
+            if self._sched is not None:      # the consumer has now waited until this chunk's result arrived
+                ci = self._order[self._pos]
+                self._pool._now = max(self._pool._now, self._sched["finish"][ci])
+                self._sched["consumed"].add(ci)
             self._pos += 1
             if isinstance(r, _Failure):
+                if self._pool is not None and self._pool._busy():
+                    self._pool._stats["failure_while_busy"] = self._pool._stats.get("failure_while_busy", 0) + 1
                 raise r.exc
             self._buf = list(r)
         return self._buf.pop(0)
